@@ -670,6 +670,131 @@ func (h *harness) leanFor(bc *batchCtx, oc *outcome) {
 	h.mu.Unlock()
 }
 
+// ------------------------------------------------------------------------------------------ shared caches (Lean `caches` lines)
+
+func hasProp(doc []byte, prop string) bool {
+	if len(doc) == 0 {
+		return false
+	}
+	var m map[string]any
+	if err := msgpack.Unmarshal(doc, &m); err != nil {
+		return false
+	}
+	return m[prop] != nil
+}
+
+// touchSet: the shared caches the batch opens when every stage runs to completion.  dispatch.go builds the
+// drain function of an index (and with it cacheTx.With(name, false, ...)) on the first point change whose
+// property is present before or after (getOperation != skip); only the two vector indexes use shared caches.
+func touchSet(bc *batchCtx, b Batch) []string {
+	set := map[string]bool{}
+	mark := func(prev, cur []byte) {
+		for prop, name := range cacheProps {
+			if hasProp(prev, prop) || hasProp(cur, prop) {
+				set[name] = true
+			}
+		}
+	}
+	switch b.Kind {
+	case "ins":
+		for i := range b.Ids {
+			mark(nil, mpack(b.Docs[i].Map()))
+		}
+	case "upd":
+		cur := map[string][]byte{}
+		for k, v := range bc.docsPre {
+			cur[k] = v
+		}
+		for i, id := range b.Ids {
+			ex, ok := cur[id]
+			if !ok {
+				continue
+			}
+			m := mergeDoc(ex, mpack(b.Docs[i].Map()))
+			mark(ex, m)
+			if len(m) <= maxPointSize {
+				cur[id] = m
+			}
+		}
+	case "del":
+		for _, id := range b.Ids {
+			if ex, ok := bc.docsPre[id]; ok {
+				mark(ex, nil)
+			}
+		}
+	}
+	var names []string
+	for n := range set {
+		names = append(names, n)
+	}
+	sort.Strings(names)
+	return names
+}
+
+func nameList(l []string) string {
+	if len(l) == 0 {
+		return "-"
+	}
+	return strings.Join(l, ",")
+}
+
+// leanCaches: one `caches` line per run that returned: which shared caches the manager holds after the
+// batch (name, same object as before?, scrapped?) against the model's Commit(fail) bookkeeping.
+//   caches <ok|err|commit> <caches before> <caches the whole batch opens> <caches of `before` that are gone>
+// ok / commit (every stage finished): the model predicts from the first two lists alone.  err (a stage
+// failed while the others were running): how far the other stages got is a race, so the caches that
+// vanished are an oracle argument (DESIGN 3.3) which the model checks against the batch (a cache the batch
+// does not open must not vanish) before it applies Commit(true).
+// Runs in which a stage of the failed batch outlived the closure (the known defect: late storage calls, a
+// leaked cache lock) are not compared: the model is the sequential program.
+func (h *harness) leanCaches(bc *batchCtx, oc *outcome) {
+	rep := oc.rep
+	if rep == nil || oc.exit != 0 || oc.timedOut || rep.CachesPre == nil || rep.CachesPost == nil {
+		return
+	}
+	if rep.LockLeaked || rep.Late > 0 {
+		h.mu.Lock()
+		h.stats["caches-line-skipped-late-stage"]++
+		h.mu.Unlock()
+		return
+	}
+	t := oc.t
+	res := "err"
+	if rep.Result == "ok" {
+		res = "ok"
+	} else if t.fault.Kind == "commitErr" {
+		res = "commit"
+	}
+	var pre, gone, post []string
+	for n := range rep.CachesPre {
+		pre = append(pre, n)
+		if _, ok := rep.CachesPost[n]; !ok {
+			gone = append(gone, n)
+		}
+	}
+	for n, tok := range rep.CachesPost {
+		flag := ""
+		if p, ok := rep.CachesPre[n]; ok && strings.Fields(p)[0] != strings.Fields(tok)[0] {
+			flag += "!replaced"
+		}
+		if strings.Contains(tok, "scrapped=true") {
+			flag += "!scrapped"
+		}
+		post = append(post, n+flag)
+	}
+	sort.Strings(pre)
+	sort.Strings(gone)
+	sort.Strings(post)
+	impl := "E:" + nameList(post)
+	if res == "ok" {
+		impl = "K:" + nameList(post)
+	}
+	line := fmt.Sprintf("caches %s %s %s %s", res, nameList(pre), nameList(touchSet(bc, t.b)), nameList(gone))
+	h.mu.Lock()
+	h.leanOps = append(h.leanOps, leanLine{batch: t.batch, idx: t.idx + 10 + (1 << 20), op: line, impl: impl, kind: "caches-" + res})
+	h.mu.Unlock()
+}
+
 // ------------------------------------------------------------------------------------------ driver
 
 func (h *harness) run(bc *batchCtx, t task, slot int) *outcome {
@@ -918,6 +1043,7 @@ func main() {
 				oc := h.run(j.bc, j.t, slot)
 				h.evaluate(j.bc, oc)
 				h.leanFor(j.bc, oc)
+				h.leanCaches(j.bc, oc)
 			}
 		}(w)
 	}
